@@ -28,6 +28,9 @@ type dCase struct {
 	Full bool `json:"full,omitempty"`
 	// Pre: keys present (value "pre-"+key, never expiring) in both tiers before the client connects
 	Pre []string `json:"pre,omitempty"`
+	// L1: "" (std handler) or "chunked": per-connection handler kind of the L1 tier; chunked runs
+	// are judged on resource release only (there is no byte-level model of that stack)
+	L1 string `json:"l1,omitempty"`
 }
 
 type halfCloser interface{ CloseWrite() error }
@@ -36,7 +39,7 @@ func runDisconnect(c dCase) (sent, out []byte, l1, l2 string, problems []string)
 	b := stack.NewBackends()
 	b.L1.SetNow(cNow)
 	b.L2.SetNow(cNow)
-	for _, k := range c.Pre {
+	for _, k := range c.Pre { // (std layout; not used with the chunked handler)
 		ent := fakemc.Entry{Flags: 7, Value: []byte("pre-" + k), Deadline: -1}
 		b.L1.Put(k, ent)
 		b.L2.Put(k, ent)
@@ -56,7 +59,11 @@ func runDisconnect(c dCase) (sent, out []byte, l1, l2 string, problems []string)
 	g0 := runtime.NumGoroutine()
 	rg0 := rendGoroutines()
 	base1, base2 := b.L1.OpenConns(), b.L2.OpenConns()
-	cn := stack.Dial(b, stack.Config{Orca: c.Deploy, Locked: c.Locked, MultiRd: true, L1: "std", Proto: c.Proto})
+	l1kind := "std"
+	if c.L1 != "" {
+		l1kind = c.L1
+	}
+	cn := stack.Dial(b, stack.Config{Orca: c.Deploy, Locked: c.Locked, MultiRd: true, L1: l1kind, Proto: c.Proto})
 	raw := cn.Raw()
 	raw.Write(sent)
 	if c.Full {
@@ -103,7 +110,7 @@ func runDisconnect(c dCase) (sent, out []byte, l1, l2 string, problems []string)
 	}
 	l1, l2 = stack.DumpGallina(b.L1), stack.DumpGallina(b.L2)
 	// no key stays locked; the server keeps accepting: a fresh connection works on the same keys
-	fc := stack.Dial(b, stack.Config{Orca: c.Deploy, Locked: c.Locked, MultiRd: true, L1: "std", Proto: c.Proto})
+	fc := stack.Dial(b, stack.Config{Orca: c.Deploy, Locked: c.Locked, MultiRd: true, L1: l1kind, Proto: c.Proto})
 	for _, k := range fsKeys[:2] {
 		q := stack.Req{Kind: "touch", Key: []byte(k), TTL: 0, Opaque: 5}
 		if c.Proto == "text" {
@@ -241,6 +248,18 @@ func c15(e *env) {
 						cases = append(cases, dCase{Deploy: c.deploy, Locked: c.locked, Proto: proto, Reqs: ss[i:], Cut: m, Full: true, Pre: []string{"a", "bb"}})
 					}
 				}
+				// the chunked handler as the per-connection L1 handler: half closes and full closes
+				// at request boundaries +-1 and every 4th offset (thorough: every offset)
+				for _, c := range fcfs {
+					for cut := 0; cut <= n; cut++ {
+						if thorough || bounds[cut] || cut%4 == 0 {
+							cases = append(cases, dCase{Deploy: c.deploy, Locked: c.locked, Proto: proto, Reqs: ss, Cut: cut, L1: "chunked"})
+							if cut > 0 {
+								cases = append(cases, dCase{Deploy: c.deploy, Locked: c.locked, Proto: proto, Reqs: ss, Cut: cut, L1: "chunked", Full: true})
+							}
+						}
+					}
+				}
 				for ci, c := range cfs {
 					for cut := 0; cut <= n; cut++ {
 						if !thorough && ci > 0 && cut%3 != r.Intn(3) {
@@ -256,6 +275,10 @@ func c15(e *env) {
 		sent, out, l1, l2, problems := runDisconnect(c)
 		if len(problems) > 0 {
 			w.Fail(rig.GoFailure{Kind: "counterexample", What: "client disconnect not cleaned up: " + problems[0], Input: c, Detail: fmt.Sprint(problems)})
+		}
+		if c.L1 == "chunked" {
+			w.Count(fmt.Sprintf("chunked-L1 config=%s/locked=%v full-close=%v", c.Deploy, c.Locked, c.Full))
+			continue
 		}
 		if c.Full {
 			w.Count("full-close proto=" + c.Proto)
@@ -280,7 +303,7 @@ func c15(e *env) {
 			gal.Bytes(sent), gal.Bytes(out), l1, l2), Nontrivial: c.Cut > 0 && len(sent) > 0, Tags: tags})
 	}
 	w.Res.Exhaustive = true
-	w.Res.Rule = "representative request streams (every command, pipelines, quiet batches, quit in the middle, multi-line values; text and binary) cut at every byte offset (quick: all offsets for one configuration, a third for the others; thorough: all offsets x 6 configurations): the client sends the prefix, half-closes and reads until the server closes; observed: bytes received, server loop ended, backend connections and goroutines back to base, a fresh connection can touch the same keys; received bytes and backend contents are compared with the byte-level connection model; in addition full closes (client stops reading too, reply writes fail) at request boundaries +-1 and every 5th offset (thorough: every offset), judged on resource release only (counted under full-close, not among the cases); non-trivial = non-empty prefix"
+	w.Res.Rule = "representative request streams (every command, pipelines, quiet batches, quit in the middle, multi-line values; text and binary) cut at every byte offset (quick: all offsets for one configuration, a third for the others; thorough: all offsets x 6 configurations): the client sends the prefix, half-closes and reads until the server closes; observed: bytes received, server loop ended, backend connections and goroutines back to base, a fresh connection can touch the same keys; received bytes and backend contents are compared with the byte-level connection model; in addition full closes (client stops reading too, reply writes fail) at request boundaries +-1 and every 5th offset (thorough: every offset), judged on resource release only (counted under full-close, not among the cases); the same half and full closes with the chunked handler as L1 (resource release only, counted under chunked-L1); non-trivial = non-empty prefix"
 	if err := w.Finish([]string{"base.Bytes", "base.Harness", "spec.MapSpec", "orca.Types", "proto.Resp", "checks.Check01", "checks.Check15"}, "case15", "check15"); err != nil {
 		rig.Die("%v", err)
 	}
